@@ -43,7 +43,9 @@ PROVOKE = ["values_unconvertible", "dtype_unconvertible", "append_unconvertible"
            "prop_cardinality", "new_id", "doc_date", "link_unresolvable", "ctor_values", "ctor_card_prop",
            "ctor_card_sec", "ctor_clash", "create_clash", "invalid_dtype", "uncertainty_text",
            "rename_clash", "reparent_clash", "append_self", "insert_clash", "extend_dup",
-           "relink_unresolvable", "extend_later_refused", "include_unresolvable", "link_self_or_relative"]
+           "relink_unresolvable", "extend_later_refused", "include_unresolvable", "link_self_or_relative",
+           "reorder_bad_index", "insert_bad_index", "setitem_bad_key", "merge_refused", "remove_foreign",
+           "values_out_of_range"]
 
 
 class C06(HeapCheck):
@@ -179,6 +181,55 @@ class C06(HeapCheck):
                 c.link = "/b"
                 before = deep_snapshot(doc, [free])
                 c.include = r.choice(["/no/such/file.xml#x", "nothing", "file:///no/such.xml#/a"])
+            elif k in ("reorder_bad_index", "insert_bad_index", "setitem_bad_key"):
+                # positions that are not plain small ints: floats (integral or not), ints beyond the
+                # machine word, bool, None, text, a tuple
+                pos = r.choice([1.5, 1.0, 0.0, 2 ** 63, 10 ** 30, -10 ** 30, None, "1", (0,), float("nan"),
+                                float("inf")])
+                if k == "reorder_bad_index":
+                    r.choice([c, p_int, p_str, b]).reorder(pos)
+                elif k == "insert_bad_index":
+                    r.choice([lambda: a.insert(pos, odml.Section("ins", "t")),
+                              lambda: a.insert(pos, odml.Property("insp", values=[1])),
+                              lambda: doc.insert(pos, odml.Section("ins", "t")),
+                              lambda: p_int.insert(pos, 7)])()
+                else:
+                    key = r.choice([pos, "nosuch", 17, -17])
+                    r.choice([lambda: a.sections.__setitem__(key, odml.Section("ins", "t")),
+                              lambda: a.properties.__setitem__(key, odml.Property("insp", values=[1])),
+                              lambda: doc.sections.__setitem__(key, odml.Section("ins", "t")),
+                              lambda: p_int.__setitem__(key, 7)])()
+            elif k == "merge_refused":
+                # a conflict that sits deep in the source, behind children that merge fine
+                src = odml.Section("a", "t")
+                odml.Section("early", "t", parent=src)
+                odml.Property("fresh", values=[1], parent=src)
+                sc = odml.Section("c", "t", parent=src)
+                odml.Section("deep_early", "t", parent=sc)
+                strict = r.random() < 0.5
+                how = r.choice(["value", "unit", "dtype", "definition"]) if strict else "value"
+                if not any(pp.name == "q" for pp in c.properties):
+                    odml.Property("q", values=[1, 2], dtype="int", unit="mV", definition="one", parent=c)
+                if how == "value":
+                    odml.Property("q", values=["not a number"], dtype="string", parent=sc)
+                elif how == "unit":
+                    odml.Property("q", values=[3], dtype="int", unit="kV", parent=sc)
+                elif how == "dtype":
+                    odml.Property("q", values=[3.5], dtype="float", parent=sc)
+                else:
+                    odml.Property("q", values=[3], dtype="int", definition="another", parent=sc)
+                before = deep_snapshot(doc, [free])
+                a.merge(src, strict=strict)
+            elif k == "remove_foreign":
+                # remove asked of a container that does not hold the object
+                r.choice([lambda: b.remove(c), lambda: a.remove(p_date), lambda: doc.remove(c),
+                          lambda: free.remove(p_int), lambda: c.remove(a)])()
+            elif k == "values_out_of_range":
+                big = r.choice([10 ** 400, float("inf"), "inf", "-inf", "1e999", float("nan"), "nan"])
+                r.choice([lambda: setattr(p_int, "values", [1, big]), lambda: p_int.append(big),
+                          lambda: p_int.extend([2, big]), lambda: p_int.insert(0, big),
+                          lambda: odml.Property("fl", values=[1.5, 10 ** 400], dtype="float", parent=a),
+                          lambda: p_int.__setitem__(0, big)])()
             elif k == "link_self_or_relative":
                 c.link = r.choice(["/a/c/zzz", "../../zzz", "zzz"])
             raised = None
